@@ -464,6 +464,36 @@ func CheckC19(e *fw.Env, _ *Lab) {
 		report(fmt.Sprintf("fresh process %d", p), &tr)
 	}
 	if e.Shard == 0 {
+		// the race-detector build: parallel worlds + concurrent ABCI queries + shared parser
+		rr := RunRaceBinary(e.Seed, e.Thorough())
+		switch {
+		case !rr.Ran:
+			e.Res.Inconc("race-detector binary /verif/bin/orbcheck-race is missing (bin/check builds it for C19)")
+		default:
+			for k, v := range rr.Counts {
+				e.Res.CountN("race:"+k, int(v))
+			}
+			e.Res.CountN("race:reports-orbiter", len(rr.Orbiter))
+			e.Res.CountN("race:reports-harness", len(rr.Harness))
+			e.Res.CountN("race:reports-foreign", len(rr.Foreign))
+			if len(rr.Foreign) > 0 {
+				e.Res.Notes["race_foreign_reports"] = strings.Join(firstN(rr.Foreign, 5), " || ")
+			}
+			if len(rr.Harness) > 0 {
+				e.Res.Notes["race_harness_reports"] = strings.Join(firstN(rr.Harness, 5), " || ")
+			}
+			for _, r := range rr.Orbiter {
+				e.Res.Violate(fw.Violation{Property: "C19", Kind: "data-race", Tags: map[string]string{"frames": trunc(r, 200)},
+					Detail: "the race detector reported a data race with a frame in the orbiter module: " + r})
+			}
+			if rr.Diverged != "" {
+				e.Res.Violate(fw.Violation{Property: "C19", Kind: "replay-differs", Tags: map[string]string{"what": "race-build-parallel-worlds"}, Detail: rr.Diverged})
+			} else if rr.ExitErr != "" {
+				e.Res.Inconc("race run failed: %s", rr.ExitErr)
+			} else if rr.Counts["blocks_replayed"] > 0 {
+				e.Res.Sig("race-run|clean|worlds=%d", rr.Counts["worlds"])
+			}
+		}
 		// a sample of what was compared
 		var acks []string
 		for _, b := range ref.Blocks {
